@@ -52,7 +52,22 @@ func (p *c06) Case(i int) fw.Case {
 		case 0, 1, 2:
 			typed, baseKind = true, "go"
 			g := &gen.GoGen{R: r}
-			return "a.xgo", g.Program(r.Range(1, 3))
+			src := g.Program(r.Range(1, 3))
+			if r.Chance(1, 4) {
+				// a type switch over unnamed composite types; in half of them one composite type is listed twice
+				// (invalid Go: the compiler has to report it, types.Identical and not pointer identity decides)
+				comp := []string{"[]int", "map[string]int", "*tsT", "func()", "chan int", "[3]int", "struct{ a int }"}
+				a, b := comp[r.Intn(len(comp))], comp[r.Intn(len(comp))]
+				for b == a {
+					b = comp[r.Intn(len(comp))]
+				}
+				second := "string"
+				if r.Chance(1, 2) {
+					second = "string, " + a
+				}
+				src += "\ntype tsT struct{}\n\nfunc tsKind(v any) int {\n\tswitch v.(type) {\n\tcase int:\n\t\treturn 0\n\tcase " + a + ", " + b + ":\n\t\treturn 1\n\tcase " + second + ":\n\t\treturn 2\n\t}\n\treturn -1\n}\n\nvar _ = tsKind(tsT{})\n"
+			}
+			return "a.xgo", src
 		case 3:
 			typed, baseKind = true, "sugar"
 			pb := (&c03{Base: Base{Id: "C03", Env: p.Env}}).build(fw.Case{Idx: i, Kind: "scenarios"}, rec)
